@@ -40,6 +40,10 @@ var c19Funcs = []c19Fn{
 	{"network/dag/tree/iblt.go", "Iblt", "UnmarshalBinary"},
 	{"network/dag/tree/iblt.go", "bucket", "UnmarshalBinary"},
 	{"auth/api/iam/openid4vp.go", "", "withCallbackURI"},
+	{"auth/api/iam/openid4vp.go", "Wrapper", "handleAuthorizeResponseSubmission"},
+	{"auth/api/iam/openid4vp.go", "Wrapper", "validatePresentationNonce"},
+	{"auth/api/iam/openid4vp.go", "", "extractChallenge"},
+	{"auth/api/iam/validation.go", "Wrapper", "validatePresentationAudience"},
 }
 
 func recvName(fd *ast.FuncDecl) string {
@@ -236,6 +240,15 @@ func c19Ops(fd *ast.FuncDecl) []string {
 				if b, ok := n.(*ast.BinaryExpr); ok && (b.Op == token.EQL || b.Op == token.NEQ) {
 					if id, ok := b.Y.(*ast.Ident); ok && id.Name == "nil" && c19Expr(b.X) != "err" {
 						add("nilcheck", c19Expr(b))
+					}
+				}
+				// length guards (`len(x) == 0`, `len(x) != 1`, …): index expressions of the models rely on them
+				if b, ok := n.(*ast.BinaryExpr); ok && (b.Op == token.EQL || b.Op == token.NEQ || b.Op == token.LSS || b.Op == token.GTR || b.Op == token.LEQ || b.Op == token.GEQ) {
+					for _, side := range []ast.Expr{b.X, b.Y} {
+						if c, ok := side.(*ast.CallExpr); ok && c19Expr(c.Fun) == "len" {
+							add("lencheck", c19Expr(b))
+							break
+						}
 					}
 				}
 				return true
